@@ -1452,15 +1452,22 @@ struct array : static_array<T, D, Alloc> {
 		}
 		this->destroy();
 		this->deallocate();
-		this->layout_mutable() = typename array::layout_t{extensions};
+		this->layout_mutable() = typename array::layout_type(typename array::extensions_type{});  // empty (and valid) until the new storage exists
 		this->base_            = this->static_::array_alloc::allocate(
             static_cast<typename multi::allocator_traits<typename array::allocator_type>::size_type>(
                 typename array::layout_t{extensions}.num_elements()
             ),
             this->data_elements()  // used as hint
         );
+		this->layout_mutable() = typename array::layout_t{extensions};
 		if constexpr(!(std::is_trivially_default_constructible_v<typename array::element_type> || multi::force_element_trivial_default_construction<typename array::element_type>)) {
-			adl_alloc_uninitialized_value_construct_n(this->alloc(), this->base_, this->num_elements());
+			try {
+				adl_alloc_uninitialized_value_construct_n(this->alloc(), this->base_, this->num_elements());
+			} catch(...) {  // nothing was left constructed: give the storage back and stay empty
+				this->deallocate();
+				this->layout_mutable() = typename array::layout_type(typename array::extensions_type{});
+				throw;
+			}
 		}
 		return std::move(*this);
 	}
@@ -1478,12 +1485,24 @@ struct array : static_array<T, D, Alloc> {
 			),
 			extensions
 		);
+		auto const release_tmp = [&](bool constructed) {  // on failure *this is left untouched and the new block is returned
+			if constexpr(!(std::is_trivially_destructible_v<typename array::element_type> || multi::force_element_trivial_destruction<typename array::element_type>)) {
+				if(constructed) { this->static_::array_alloc::destroy_n(tmp.data_elements(), tmp.num_elements()); }
+			}
+			if(tmp.num_elements() != 0) {
+				multi::allocator_traits<typename array::allocator_type>::deallocate(this->alloc(), tmp.data_elements(), static_cast<typename multi::allocator_traits<typename array::allocator_type>::size_type>(tmp.num_elements()));
+			}
+		};
 		if constexpr(!(std::is_trivially_default_constructible_v<typename array::element_type> || multi::force_element_trivial_default_construction<typename array::element_type>)) {
-			adl_alloc_uninitialized_value_construct_n(this->alloc(), tmp.data_elements(), tmp.num_elements());
+			try {
+				adl_alloc_uninitialized_value_construct_n(this->alloc(), tmp.data_elements(), tmp.num_elements());
+			} catch(...) { release_tmp(false); throw; }
 		}
 		auto const is = intersection(this->extensions(), extensions);
 		if(is.num_elements() != 0) {  // an empty common part has nothing to keep (and zero extents are not sliceable)
-			tmp.apply(is) = this->apply(is);  // TODO(correaa) : use (and implement) `.move();`
+			try {
+				tmp.apply(is) = this->apply(is);  // TODO(correaa) : use (and implement) `.move();`
+			} catch(...) { release_tmp(true); throw; }
 		}
 		this->destroy();
 		this->deallocate();
@@ -1513,10 +1532,22 @@ struct array : static_array<T, D, Alloc> {
 			),
 			exs
 		);
-		this->uninitialized_fill_n(tmp.data_elements(), static_cast<typename multi::allocator_traits<typename array::allocator_type>::size_type>(tmp.num_elements()), elem);
+		auto const release_tmp = [&](bool constructed) {  // on failure *this is left untouched and the new block is returned
+			if constexpr(!(std::is_trivially_destructible_v<typename array::element_type> || multi::force_element_trivial_destruction<typename array::element_type>)) {
+				if(constructed) { this->static_::array_alloc::destroy_n(tmp.data_elements(), tmp.num_elements()); }
+			}
+			if(tmp.num_elements() != 0) {
+				multi::allocator_traits<typename array::allocator_type>::deallocate(this->alloc(), tmp.data_elements(), static_cast<typename multi::allocator_traits<typename array::allocator_type>::size_type>(tmp.num_elements()));
+			}
+		};
+		try {
+			this->uninitialized_fill_n(tmp.data_elements(), static_cast<typename multi::allocator_traits<typename array::allocator_type>::size_type>(tmp.num_elements()), elem);
+		} catch(...) { release_tmp(false); throw; }
 		auto const is = intersection(this->extensions(), exs);
 		if(is.num_elements() != 0) {  // an empty common part has nothing to keep (and zero extents are not sliceable)
-			tmp.apply(is) = this->apply(is);
+			try {
+				tmp.apply(is) = this->apply(is);
+			} catch(...) { release_tmp(true); throw; }
 		}
 		this->destroy();
 		this->deallocate();
